@@ -176,26 +176,26 @@ func (g *Global) loadKnown(path string) {
 }
 
 type statsOut struct {
-	Prop        string            `json:"prop"`
-	Runs        int64             `json:"runs"`
-	RunsFault   int64             `json:"runs_with_fault"`
-	FaultKinds  map[string]int64  `json:"fault_kinds"`
-	Probes      map[string]int64  `json:"probes"`
-	Known       map[string]int64  `json:"known_findings_seen"`
-	Violations  map[string]int64  `json:"violations"`
-	Distinct    []string          `json:"distinct"`
-	DistinctNT  []string          `json:"distinct_nontrivial"`
-	Samples     []Sample          `json:"samples"`
-	LogDigest   string            `json:"log_digest"`
-	SimTimeS    int64             `json:"sim_time_s"`
-	GuardCalls  map[string]int64  `json:"guard_calls"`
-	MaxAlloc    map[string]uint64 `json:"max_alloc_bytes"`
-	Exhaustive  map[string]int64  `json:"exhaustive_subspaces"`
-	Outcomes    map[string]int64  `json:"outcomes"`
-	WallS       float64           `json:"wall_s"`
-	GoVersion   string            `json:"go_version"`
-	GOMAXPROCS  int               `json:"gomaxprocs"`
-	ExitCode    int               `json:"exit_code"`
+	Prop       string            `json:"prop"`
+	Runs       int64             `json:"runs"`
+	RunsFault  int64             `json:"runs_with_fault"`
+	FaultKinds map[string]int64  `json:"fault_kinds"`
+	Probes     map[string]int64  `json:"probes"`
+	Known      map[string]int64  `json:"known_findings_seen"`
+	Violations map[string]int64  `json:"violations"`
+	Distinct   []string          `json:"distinct"`
+	DistinctNT []string          `json:"distinct_nontrivial"`
+	Samples    []Sample          `json:"samples"`
+	LogDigest  string            `json:"log_digest"`
+	SimTimeS   int64             `json:"sim_time_s"`
+	GuardCalls map[string]int64  `json:"guard_calls"`
+	MaxAlloc   map[string]uint64 `json:"max_alloc_bytes"`
+	Exhaustive map[string]int64  `json:"exhaustive_subspaces"`
+	Outcomes   map[string]int64  `json:"outcomes"`
+	WallS      float64           `json:"wall_s"`
+	GoVersion  string            `json:"go_version"`
+	GOMAXPROCS int               `json:"gomaxprocs"`
+	ExitCode   int               `json:"exit_code"`
 }
 
 func hexList(m map[uint64]struct{}) []string {
